@@ -83,7 +83,7 @@ Proof. intros. eapply pay_all_native_treasury; eassumption. Qed.
 
 Theorem C01_treasury_untouched_mint : forall tid denom d outs l faults l' f',
   pay_all 1 tid denom l faults outs = (Some l', f') ->
-  (forall o, In o outs -> fst o <> treasury tid) ->
+  (forall o, In o outs -> fst o <> treasury tid) -> 0 <= tid ->
   bal_get l' (treasury tid) d = bal_get l (treasury tid) d.
 Proof. intros. eapply pay_all_mint_treasury; eassumption. Qed.
 
